@@ -30,6 +30,18 @@ fn granularity() -> &'static str {
 
 include!("../../../harness/vts/src/listen_families.inc");
 
+// C07: threads sharing a client connection; here the connection's lock is a scheduled lock
+use std::io::{BufReader, Read, Write};
+use varlink::{Connection, ErrorKind, MethodCall};
+type MC = MethodCall<Value, Value, varlink::Error>;
+type ConnLock<T> = vh::vsched::sync::RwLock<T>;
+
+fn granularity7() -> &'static str {
+    "[lock granularity: compiled against the copy of the crate whose std::sync imports are redirected to scheduled primitives; the lock around the shared Connection is a scheduled lock (blocking acquisitions are enabled only while the lock is free, try-acquisitions are plain scheduling points) and every write of a client, made while it holds that lock, is a scheduling point]"
+}
+
+include!("../../../harness/vh/src/c07t.inc");
+
 /// the copy's in-memory stream: same pipes as the probe-level engine, the copy's `Stream` trait
 struct SStream(ServerStream);
 impl std::io::Read for SStream {
@@ -232,6 +244,12 @@ fn main() {
     let args = Args::parse();
     match args.sub.as_str() {
         "c14s" => c14s(&args),
+        "c07s" => {
+            install_copy_hooks();
+            CLIENT_WRITE_YIELDS.store(true, std::sync::atomic::Ordering::SeqCst);
+            vh::vsched::sync::RELEASE_YIELDS.store(true, std::sync::atomic::Ordering::SeqCst);
+            c07t(&args)
+        }
         "c13s" => {
             install_copy_hooks();
             c13(&args)
